@@ -912,11 +912,13 @@ def parse_item(parent, item) -> StateItem:
         raise NotImplementedError
 
 def get_next_step_label(step: Union[Calculation, CalculationStep], label: Label) -> Label:
+    """Label of the step added by perform_rule on the given item (with the given label)."""
     if isinstance(step, Calculation):
-        return Label(label.data + [0])
+        # perform_rule on a calculation adds the step at the end
+        return Label(label.data + [max(len(step.steps) - 1, 0)])
     elif isinstance(step, CalculationStep):
         return Label(label.data[:-1] + [label.data[-1] + 1])
     elif isinstance(step, RewriteGoalProof):
-        return Label(label.data + [0])
+        return Label(label.data + [max(len(step.begin.steps) - 1, 0)])
     else:
         raise NotImplementedError
